@@ -56,9 +56,10 @@ PROPS['C03'] = dict(
     assumptions=COMMON + [A_VALID, A_F0, "probabilities of probabilistic states are > 0 (Proper(G)); the solver does not validate this"],
     trusted_base=['spec functions FilterAlive/AliveMass/Renorm/FilterLab of contracts/tad_spec.py (written from the statement: keep, in order, exactly the transitions whose target has non-zero probability; divide by the surviving mass)'],
     undecided_clauses=[],
-    termination_unproved=['Solver.prune_states: while not finished (ghost counting argument not mechanised)'],
+    termination_unproved=[],
+    termination_proved=['Solver.prune_states: while not finished -- variant n - len(not_reachable_states), strictly decreasing whenever the loop continues (the unreachable list is ascending, within [0,n), and contains the previous one: L_pigeon, L_subset_card)'],
     level_text="Obligations from the real AST, for transition lists of any length with dead successors in any positions: both prune_paths methods leave exactly FilterAlive(old list) (whole-list equality: order kept, nothing alive lost, nothing dead kept), the probabilistic one divided by the surviving mass (sums to 1, proved via the Renorm/SumP lemmas) and untouched when nothing was dead; prune_paths_reachability leaves exactly the transitions whose label is reachability-optimal; Solver.prune_paths/prune_reachability apply this to every Player 1 / probabilistic state and leave Player 2 states and every pre-existing list object untouched (frame); prune_states only ever replaces lists of non-Player-1 states that are NOT reachable from state 0 by the empty list (proved for any predicate satisfying the inversion rule of forward reachability).",
-    level_note="Trusted: z3/cvc5, the encoder (heap model of list objects and object fields), A-REAL. The composition inside StochasticGame.solve (that these methods are called in this order on the solver's node list) is covered by the bounded executable contracts, not yet by a contract on solve. Termination of prune_states not proved.",
+    level_note="Trusted: z3/cvc5, the encoder (heap model of list objects and object fields), A-REAL. The composition inside StochasticGame.solve (that these methods are called in this order on the solver's node list) is covered by the bounded executable contracts, not yet by a contract on solve. Termination of prune_states is proved (variant + cardinality lemmas).",
 )
 PROPS['C10'] = dict(
     functions=[q for q in _C if q.startswith('tad.') and not _C[q].get('external')],
@@ -72,6 +73,8 @@ PROPS['C10'] = dict(
 )
 
 RDFS_LEMMAS = ['L_CountI_ext', 'L_CountP_ext', 'L_CountI_mem', 'L_CountT_mem', 'L_CountP_mem', 'L_FNI_len', 'L_FNI_count', 'L_distinct_le1', 'L_CountI_step', 'L_le1_distinct']
+CARD_LEMMAS = ['L_SumC_zero', 'L_SumC_step', 'L_SumC_len', 'L_SumC_le', 'L_pigeon', 'L_SumC_mono', 'L_SumC_eq', 'L_subset_countle', 'L_count_subset', 'L_subset_card']
+RDFS_LEMMAS = RDFS_LEMMAS + CARD_LEMMAS
 A_VALUE = "value model: every list/dict in reverse_dfs.py is built locally and has a single access path when it is mutated, so nested references are encoded as nested values"
 A_CR = "reverse_dfs is verified for ANY predicate CR closed under the introduction rules of 'can reach a final state' (result inside CR) and its result together with the finals is proved closed under predecessors; that these two facts characterise the least fixed point is M_LFP (lean/Meta.lean)"
 PROPS['C07'] = dict(
@@ -80,10 +83,11 @@ PROPS['C07'] = dict(
     assumptions=[A_LIST, A_TRANS, A_VALUE, A_SORT, A_CR],
     trusted_base=['spec functions CountI/CountP/CountT/FilterNotIn of contracts/rdfs_spec.py', 'Lean 4 meta-lemma M_LFP (least fixed point = smallest closed set containing the finals)'],
     undecided_clauses=[],
-    termination_unproved=['reverse_dfs_recursive: while pending_states (variant = (number of unvisited states, len(pending)) needs a cardinality argument that is not mechanised); recursion depth: the function no longer calls itself (checked syntactically)'],
+    termination_unproved=[],
+    termination_proved=['reverse_dfs_recursive: while pending_states -- lexicographic variant (n - len(visited), len(pending)); len(visited) <= n by the pigeonhole lemma L_pigeon (visited is duplicate-free within the key range of the reversed table)', 'no recursion: the function no longer calls itself (static obligation)'],
     static=[('no-recursion-in-backward-search', ST.no_self_call('reverse_dfs', 'reverse_dfs_recursive'))],
     level_text="All six functions of reverse_dfs.py are verified from their real AST for graphs of any size: the reversed table has an entry for every state and lists u under v exactly once per transition u->v (stated with counting functions: CountI(rev[v], u) = CountT(tl[u], v) for all u, v); the work-list search returns a duplicate-free list that extends its accumulator, contains the start state, is closed under predecessors and sound w.r.t. any reachability predicate; reverse_dfs returns a strictly ascending list (each state once) of non-final states inside every predicate closed under the reachability rules, and result+finals is closed under predecessors -- with the Lean meta-lemma M_LFP this is exactly the set of non-final states that can reach a final state.",
-    level_note="Trusted: z3/cvc5, the encoder (value model for locally built lists/dicts), the assumed contract of list.sort (ascending permutation), Lean's kernel for M_LFP. Termination of the work-list loop is not proved (no recursion remains, so depth is not an issue). Inputs are assumed in range (targets and finals in 0..n-1), which check_game/check_next_states establish.",
+    level_note="Trusted: z3/cvc5, the encoder (value model for locally built lists/dicts), the assumed contract of list.sort (ascending permutation), Lean's kernel for M_LFP. Termination of the work-list loop is proved (lexicographic variant; pigeonhole lemma; no recursion remains). Inputs are assumed in range (targets and finals in 0..n-1), which check_game/check_next_states establish.",
 )
 
 from .strings_c17 import LEMMAS as C17_STR
@@ -178,9 +182,10 @@ PROPS['C06'] = dict(
     trusted_base=['every operation that can raise (subscript, division, dict key, min/max of empty, unbound local, len/compare of a non-number, round digits) generates a safety obligation unless the contract admits that exception'],
     undecided_clauses=["'rp[0] = 0 implies the true value is 0' (the converse of the proved 'V*[0] = 0 implies refused'): an accuracy statement; false on the real code for slowly propagating values (known finding F-ZERO)",
                        "composition of the phases inside StochasticGame.solve after the validating prefix, and prune_stochastich_game / solve_total_rewards / Solver.__init__ / count_transitions, are not yet under contract: covered by the bounded executable contracts"],
-    termination_unproved=['reverse_dfs_recursive (work-list loop)', 'Solver.value_iteration_reachability (real-valued progress argument not mechanised)', 'Solver.prune_states', 'Solver.value_iteration_total_rewards (diverges on non-stopping games)'],
+    termination_proved=['reverse_dfs_recursive (work-list loop): lexicographic variant + pigeonhole', 'Solver.prune_states: variant n - len(unreachable list)', 'every for loop iterates over a list its body cannot change (count fixed at entry; engine check)'],
+    termination_unproved=['Solver.value_iteration_reachability (real-valued progress argument not mechanised)', 'Solver.value_iteration_total_rewards (diverges on non-stopping games)'],
     level_text="Exception freedom and the admitted exception, from the real AST of 45 functions of tad.py and reverse_dfs.py: every subscript is in range, every division is by a non-zero value, every local is bound before use, every dict key is present, every min/max is of a non-empty list (or raises the admitted ValueError), no method modifies anything outside its frame; the validating prefix raises ValueError exactly for malformed descriptions; the reachability phase raises exactly when pruning is on and the reported rp[0] is 0 (and since 0 <= rp <= V*, a game whose true initial value is 0 is always refused).",
-    level_note="Trusted: z3/cvc5, the encoder. Termination is proved for none of the four unbounded loops (listed); the bounded executable contracts run the real solve under a time limit on ~1500 stopping games. The converse of the refusal rule is a known finding (F-ZERO).",
+    level_note="Trusted: z3/cvc5, the encoder. Termination is proved for the work-list search and for prune_states (variants, cardinality lemmas), not for the two value-iteration sweeps (listed); the bounded executable contracts run the real solve under a time limit on ~1500 stopping games. The converse of the refusal rule is a known finding (F-ZERO).",
 )
 PROPS['C14'] = dict(
     functions=fns('C14'),
@@ -247,7 +252,7 @@ PROPS['C01']['level_text'] += SOLVE_TXT + " For the tuple solve returns: probabi
 PROPS['C02']['level_text'] += SOLVE_TXT + " For the tuple solve returns: rewards[t] = er[t] >= 0 and |er[t] - BW(t, er)| <= 1e-6 at EVERY state, where BW is over the node lists at exit, and those lists are proved to be exactly the conditioned game: with pruning on, Player 1 keeps FilterAlive(FilterLab(input list, reported reachability strategy)), probabilistic states keep Renorm(FilterAlive(input list)) (or the untouched input list), Player 2 keeps its input list -- or the state was cleared by prune_states, which happens only to non-Player-1 states outside ANY predicate satisfying the inversion rule of forward reachability in the conditioned game; with pruning off only FilterLab is applied."
 PROPS['C02']['undecided_clauses'] = [PROPS['C02']['undecided_clauses'][0]]
 PROPS['C03']['level_text'] += SOLVE_TXT + " The conditioned-game statement above (C02) is the solve-level form of C03; no list object that existed before the call is modified."
-PROPS['C03']['level_note'] = "Trusted: z3/cvc5, the encoder (heap model of list objects and object fields), A-REAL, A-BRIDGE (the typed precondition of the suffix is what the validating prefix establishes; linked by hand). Termination of prune_states not proved."
+PROPS['C03']['level_note'] = "Trusted: z3/cvc5, the encoder (heap model of list objects and object fields), A-REAL, A-BRIDGE (the typed precondition of the suffix is what the validating prefix establishes; linked by hand). Termination of prune_states is proved (variant + cardinality lemmas)."
 PROPS['C05']['level_text'] += SOLVE_TXT + " For the tuple solve returns: final_strategies[a] is the arg-list over the node list at exit (= the conditioned game, see C02/C03), reachability_strategies[a] the arg-list over the input list."
 PROPS['C05']['undecided_clauses'] = ["optimality w.r.t. the TRUE conditioned rewards in cyclic games (C02's accuracy clause)",
                                      "the inclusion final[s] within reach[s] follows from the proved solve-level facts (final = ArgEqR over FilterAlive(FilterLab(input, reach[s])) whose labels lie in reach[s] by the proved lemmas L_ArgEqR_from, L_FA_from, L_FL_from) but is not stated as a single discharged obligation"]
